@@ -83,6 +83,7 @@ func init() {
 		"strconv.Itoa":                   modelHavocPure,
 		"strconv.FormatInt":              modelHavocPure,
 		"strconv.Quote":                  modelHavocPure,
+		"encoding/hex.Decode":            modelHexDecode,
 		"net/url.PathUnescape":           modelHavocPure,
 		"net/url.Parse":                  modelHavocPure,
 		"encoding/binary.bigEndian.Uint64": modelBE64,
@@ -840,4 +841,38 @@ func modelSlicesGrow(f *Frame, st *State, cc *ssa.CallCommon, args []Val, rt typ
 	e.assume(st.cond, fmt.Sprintf("(and (>= %s (+ (s.len %s) %s)) (<= %s 4611686018427387904))", cp, s, n, cp))
 	st.heapA[srt] = e.define("ha", e.heapASort(srt), sIte(fits, h, fmt.Sprintf("(store %s %s %s)", h, arr, na)))
 	return Val{T: rt, S: e.define("grown", "Slice", sIte(fits, s, fmt.Sprintf("(mk-slice %s 0 (s.len %s) %s)", arr, s, cp)))}
+}
+
+// encoding/hex.Decode(dst, src): "Decode expects that src contains only hexadecimal characters and that src has even length.
+// If the input is malformed, Decode returns the number of bytes decoded before the error." Model (mode int): with
+// hv(c) the value of a hexadecimal digit of either case (-1 otherwise): if len(src) is even and every byte is a hex digit, then
+// n == len(src)/2, err == nil and dst[j] == 16*hv(src[2j]) + hv(src[2j+1]) for j < n; otherwise err != nil and 0 <= n <= len(src)/2.
+// dst must hold len(src)/2 bytes (obligation). Only dst[0 .. len(src)/2) is written.
+func modelHexDecode(f *Frame, st *State, cc *ssa.CallCommon, args []Val, rt types.Type, pos token.Pos) Val {
+	e := f.e
+	tup := rt.(*types.Tuple)
+	if e.mode == "bv" {
+		return e.havocVal(rt, "hexdec", st)
+	}
+	dst, src := args[0].S, args[1].S
+	e.sc.Decl("fun:hexval", "(define-fun hex.val ((c Int)) Int (ite (and (<= 48 c) (<= c 57)) (- c 48) (ite (and (<= 97 c) (<= c 102)) (- c 87) (ite (and (<= 65 c) (<= c 70)) (- c 55) (- 1)))))")
+	bsort := e.sortOf(types.Typ[types.Uint8])
+	h := e.getHeapA(st, bsort)
+	srcAt := func(i string) string {
+		return fmt.Sprintf("(select (select %s (s.arr %s)) (+ (s.off %s) %s))", h, src, src, i)
+	}
+	e.check(f, st, "no-panic.hexdecode", "hex.Decode: dst holds at least len(src)/2 bytes", fmt.Sprintf("(>= (s.len %s) (div (s.len %s) 2))", dst, src), pos)
+	allHex := e.define("hexok", "Bool", fmt.Sprintf("(and (= (mod (s.len %s) 2) 0) (forall ((i Int)) (! (=> (and (<= 0 i) (< i (s.len %s))) (>= (hex.val %s) 0)) :pattern (%s))))", src, src, srcAt("i"), srcAt("i")))
+	n := e.freshConst("hexn", "Int")
+	errv := e.freshConst("hexerr", "Iface")
+	// new content of dst's array
+	na := e.freshConst("hexdst", "(Array Int "+bsort+")")
+	old := fmt.Sprintf("(select %s (s.arr %s))", h, dst)
+	half := fmt.Sprintf("(div (s.len %s) 2)", src)
+	e.assume(st.cond, fmt.Sprintf("(and (<= 0 %s) (<= %s %s) (= (= %s iface.nil) %s) (=> %s (= %s %s)))", n, n, half, errv, allHex, allHex, n, half))
+	// frame: outside dst[0..half) unchanged; inside (when ok): decoded
+	e.assume(st.cond, fmt.Sprintf("(forall ((k Int)) (! (=> (or (< k (s.off %s)) (>= k (+ (s.off %s) %s))) (= (select %s k) (select %s k))) :pattern ((select %s k))))", dst, dst, half, na, old, na))
+	e.assume(st.cond, fmt.Sprintf("(=> %s (forall ((j Int)) (! (=> (and (<= 0 j) (< j %s)) (= (select %s (+ (s.off %s) j)) (+ (* 16 (hex.val %s)) (hex.val %s)))) :pattern ((select %s (+ (s.off %s) j))))))", allHex, half, na, dst, srcAt("(* 2 j)"), srcAt("(+ (* 2 j) 1)"), na, dst))
+	st.heapA[bsort] = e.define("ha", e.heapASort(bsort), fmt.Sprintf("(store %s (s.arr %s) %s)", h, dst, na))
+	return Val{T: rt, Tuple: []Val{{T: tup.At(0).Type(), S: n}, {T: tup.At(1).Type(), S: errv}}}
 }
